@@ -639,6 +639,60 @@ def _x4_old(run: Run, prog: Program):
     run.floor("X4 helpers", n, 4)
 
 
+def x9(run: Run, cy: CyProgram):
+    """Scan latches of the cross kernels: a scalar that a loop nest sets once under
+    a test on itself (`if first < 0: first = j`) to an index of an *inner* loop
+    describes the current iteration of the outer loop (the current node of group
+    1): it must be (re-)initialised inside the outer loop body, not only before
+    the loop."""
+    from .cymodel import names_in
+    n = 0
+    for f in sorted(cy.modules[CORE].funcs.values(), key=lambda f: f.name):
+        if "cross" not in f.name:
+            continue
+        latches = {}
+
+        def visit(body, chain):
+            for st in body:
+                if st.k == "for":
+                    visit(st.a[2], chain + (st,))
+                elif st.k == "while":
+                    visit(st.a[1], chain)
+                elif st.k == "if":
+                    for cond, b in st.a[0]:
+                        tested = names_in(cond) if cond is not None else set()
+                        for s2 in b:
+                            if s2.k == "assign" and len(s2.a[0]) == 1 and \
+                                    s2.a[0][0].k == "name" and \
+                                    s2.a[0][0].a[0] in tested and len(chain) >= 2:
+                                L = s2.a[0][0].a[0]
+                                inner = {pp(l.a[0]) for l in chain[1:]}
+                                if names_in(s2.a[1]) & inner and L not in names_in(s2.a[1]):
+                                    latches.setdefault(L, []).append((s2, chain))
+                        visit(b, chain)
+                    visit(st.a[1] or [], chain)
+        visit(f.body, ())
+        for L, defs in sorted(latches.items()):
+            outer = defs[0][1][0]
+            # a plain (re-)initialisation at the level of the outer loop body
+            reinit = any(
+                st.k == "assign" and any(t.k == "name" and t.a[0] == L for t in st.a[0])
+                and L not in names_in(st.a[1]) for st in outer.a[2])
+            n += 1
+            run.oblige("X9", f"{f.name}:{L}", reinit, sample={
+                "where": f"{f.module.relpath}:{defs[0][0].line}",
+                "outer_loop": pp(outer.a[0])})
+            if not reinit:
+                run.add("X9", f"{f.name}/latch/{L}",
+                        f"{f.module.relpath}:{defs[0][0].line}",
+                        f"{f.name}: `{L}` is set once under a test on itself to an index "
+                        f"of an inner loop (`{pp(defs[0][0])[:60]}`) but is not "
+                        f"re-initialised in the body of the outer loop over "
+                        f"`{pp(outer.a[0])}`: from the second node on the scan starts "
+                        f"from the previous node's value and skips pairs")
+    run.count("X9", n)
+
+
 def check(run: Run, prog: Program, cy: CyProgram, sites):
     run.rule("X1", "compiled kernels and their `_sparse` siblings count under the same "
              "link tests over the same role domains; triangles test all three links")
@@ -653,6 +707,8 @@ def check(run: Run, prog: Program, cy: CyProgram, sites):
              "independently")
     run.rule("X5", "virtual `self.m()` calls in inherited methods are accepted by the "
              "overrides of coupled/interacting subclasses")
+    run.rule("X9", "a scan latch of a cross kernel (set once per node to an inner-loop "
+             "index) is re-initialised for every node of the outer loop")
     run.explanation = (
         "Structural necessary conditions of C11: sibling agreement between the "
         "compiled and the pure-Python `_sparse` variants (guard sets and loop "
@@ -660,6 +716,7 @@ def check(run: Run, prog: Program, cy: CyProgram, sites):
         "typing, copy semantics of the sub-block helpers and override-signature "
         "compatibility. Equality with sub-block definitions is NOT decided.")
     x1(run, prog, cy)
+    x9(run, cy)
     x2(run, prog)
     n = report_sites(run, "X3", sites,
                      lambda s: "interacting_networks" in s.func.module.relpath
